@@ -20,55 +20,9 @@
 (* Text is a sequence of code points, bytes a sequence of 0..255, bits a    *)
 (* sequence of 0/1 (TLC strings are opaque).                                *)
 (***************************************************************************)
-EXTENDS Integers, Sequences, FiniteSets, TLC, SequencesExt
+EXTENDS Integers, Sequences, FiniteSets, TLC, SequencesExt, TreeValueRef
 
 -----------------------------------------------------------------------------
-(* leaves *)
-S(cps)  == [k |-> "str",   v |-> cps]
-B(bs)   == [k |-> "bytes", v |-> bs]
-Bit(b)  == [k |-> "bit",   v |-> <<b>>]
-
-Utf8(cp) == IF cp < 128 THEN <<cp>>
-            ELSE IF cp < 2048 THEN <<192 + cp \div 64, 128 + (cp % 64)>>
-            ELSE IF cp < 65536 THEN <<224 + cp \div 4096, 128 + ((cp \div 64) % 64), 128 + (cp % 64)>>
-            ELSE <<240 + cp \div 262144, 128 + ((cp \div 4096) % 64), 128 + ((cp \div 64) % 64), 128 + (cp % 64)>>
-FlatMap(seq, Op(_)) == FoldLeft(LAMBDA acc, x : acc \o Op(x), <<>>, seq)
-Utf8All(cps) == FlatMap(cps, Utf8)
-ByteBits(b) == [i \in 1..8 |-> (b \div (2^(8-i))) % 2]
-BitsOfBytes(bs) == FlatMap(bs, ByteBits)
-BitsToNat(bits) == FoldLeft(LAMBDA acc, x : acc * 2 + x, 0, bits)
-RECURSIVE BytesOfBits(_)
-BytesOfBits(bits) == IF bits = <<>> THEN <<>>
-   ELSE << BitsToNat(SubSeq(bits, 1, 8)) >> \o BytesOfBits(SubSeq(bits, 9, Len(bits)))
-IsDigits(cps) == cps # <<>> /\ \A i \in 1..Len(cps) : cps[i] \in 48..57
-DecimalOf(cps) == FoldLeft(LAMBDA acc, x : acc * 10 + (x - 48), 0, cps)
-
------------------------------------------------------------------------------
-(* Part 1: reference semantics on the flat leaf sequence *)
-LeafBits(l) == CASE l.k = "bit" -> l.v [] l.k = "bytes" -> BitsOfBytes(l.v) [] l.k = "str" -> BitsOfBytes(Utf8All(l.v))
-RECURSIVE AlignedFrom(_,_)
-AlignedFrom(ls, pos) == IF ls = <<>> THEN TRUE
-   ELSE LET l == Head(ls) IN
-        /\ (l.k # "bit" /\ l.v # <<>>) => (pos % 8) = 0
-        /\ AlignedFrom(Tail(ls), pos + Len(LeafBits(l)))
-Aligned(ls) == AlignedFrom(ls, 0)
-\* stricter, used only to delimit the generated family (see LocallyAligned): *every* text/bytes leaf,
-\* an empty one too, sits at a multiple of 8 bits
-RECURSIVE StrictFrom(_,_)
-StrictFrom(ls, pos) == IF ls = <<>> THEN TRUE
-   ELSE LET l == Head(ls) IN (l.k # "bit" => (pos % 8) = 0) /\ StrictFrom(Tail(ls), pos + Len(LeafBits(l)))
-StrictAligned(ls) == StrictFrom(ls, 0)
-AllText(ls) == \A i \in 1..Len(ls) : ls[i].k = "str"
-AllBits(ls) == ls # <<>> /\ \A i \in 1..Len(ls) : ls[i].k = "bit"
-RefBits(ls) == FlatMap(ls, LeafBits)
-RefBytesDefined(ls) == Aligned(ls) /\ (Len(RefBits(ls)) % 8) = 0
-RefBytes(ls) == BytesOfBits(RefBits(ls))
-RefStrDefined(ls) == Aligned(ls) /\ (AllText(ls) \/ RefBytesDefined(ls))
-RefStr(ls) == IF AllText(ls) THEN FlatMap(ls, LAMBDA l : l.v) ELSE RefBytes(ls)   \* Latin-1: byte b <-> code point b
-\* int(): pinned only where its meaning is not in doubt - a bit string is a binary number, digits are decimal
-RefIntDefined(ls) == Aligned(ls) /\ (AllBits(ls) \/ (AllText(ls) /\ IsDigits(RefStr(ls)) /\ Len(RefStr(ls)) <= 8))
-RefInt(ls) == IF AllBits(ls) THEN BitsToNat(RefBits(ls)) ELSE DecimalOf(RefStr(ls))
-
 -----------------------------------------------------------------------------
 (* Part 2: the implementation-shaped value object *)
 Err == [k |-> "ERR", v |-> <<>>, tb |-> <<>>]
